@@ -141,9 +141,11 @@ def MeshWF (m : PMesh) : Prop :=
   (∀ a ∈ m.written, VecsOK (attrComp a.name) a.dim a.vals ∧ a.vals.length = m.attrLen)
   ∧ (∀ i ∈ m.indices, i < m.attrLen) ∧ m.attrLen ≤ 2 ^ 32
 
-/-- admissible GPU instances: ten binary32 values each (position, scale, rotation), finite and not NaN -/
+/-- admissible GPU instances: ten binary32 values each (position, scale, rotation), none infinite, and no NaN in the
+    ROTATION (a FLOAT VEC4: `encoding/json` would refuse the NaN bound); NaN in position / scale is accepted by the writer
+    and skipped by its min/max loops -/
 def InstWF (inst : List (List Nat)) : Prop :=
-  ∀ t ∈ inst, t.length = 10 ∧ ∀ x ∈ t, x < 2 ^ 32 ∧ x ≠ posInf32 ∧ x ≠ negInf32 ∧ isNaN32 x = false
+  ∀ t ∈ inst, t.length = 10 ∧ (∀ x ∈ t, x < 2 ^ 32 ∧ x ≠ posInf32 ∧ x ≠ negInf32) ∧ ∀ x ∈ t.drop 6, isNaN32 x = false
 
 def SceneOK (s : Scene) : Prop := (∀ m ∈ s.meshHeap, MeshWF m) ∧ (∀ md ∈ s.models, InstWF md.instances)
 
@@ -180,16 +182,17 @@ theorem inv_addMesh (w : W) (name : String) (id : Nat) (m : PMesh) (mat : Option
       · exact inv_congr (inv_writeMeshData _ id m h0 hm) ⟨rfl, rfl, rfl, rfl⟩
 
 theorem vecsOK_inst (inst : List (List Nat)) (h : InstWF inst) (f : List Nat → List Nat) (d : Nat)
-    (hf : ∀ t, t.length = 10 → (f t).length = d ∧ ∀ x ∈ f t, x ∈ t) : VecsOK .f32 d (inst.map f) := by
+    (hf : ∀ t, t.length = 10 → (f t).length = d ∧ ∀ x ∈ f t, x ∈ t)
+    (hn : d = 4 → ∀ t, ∀ x ∈ f t, x ∈ t.drop 6) : VecsOK .f32 d (inst.map f) := by
   intro v hv
   obtain ⟨t, ht, rfl⟩ := List.mem_map.mp hv
-  obtain ⟨hlen, hx⟩ := h t ht
+  obtain ⟨hlen, hx, hnan⟩ := h t ht
   refine ⟨(hf t hlen).1, ?_⟩
   intro x hxv
-  obtain ⟨h1, h2, h3, h4⟩ := hx x ((hf t hlen).2 x hxv)
+  obtain ⟨h1, h2, h3⟩ := hx x ((hf t hlen).2 x hxv)
   refine ⟨by simpa [Comp.size] using h1, ?_, ?_⟩
   · rintro ⟨_, h | h⟩ <;> contradiction
-  · rintro ⟨_, _, h⟩; rw [h4] at h; cases h
+  · rintro ⟨_, hd, h⟩; rw [hnan x (hn hd t x hxv)] at h; cases h
 
 theorem inv_addInstances (w : W) (inst : List (List Nat)) (hw : Inv w) (hi : InstWF inst) : Inv (addInstances w inst).1 := by
   unfold addInstances
@@ -198,11 +201,12 @@ theorem inv_addInstances (w : W) (inst : List (List Nat)) (hw : Inv w) (hi : Ins
   · simp only
     have h0 : Inv { w with extUsed := setInsert w.extUsed "EXT_mesh_gpu_instancing" } := inv_congr hw ⟨rfl, rfl, rfl, rfl⟩
     have h1 := inv_writeVec _ h0 .f32 3 (inst.map (fun t => t.take 3)) (Or.inl rfl)
-      (vecsOK_inst inst hi _ 3 (fun t ht => ⟨by simp [ht], fun x hx => List.mem_of_mem_take hx⟩))
+      (vecsOK_inst inst hi _ 3 (fun t ht => ⟨by simp [ht], fun x hx => List.mem_of_mem_take hx⟩) (fun h => by cases h))
     have h2 := inv_writeVec _ h1 .f32 3 (inst.map (fun t => (t.drop 3).take 3)) (Or.inl rfl)
-      (vecsOK_inst inst hi _ 3 (fun t ht => ⟨by simp [ht], fun x hx => List.mem_of_mem_drop (List.mem_of_mem_take hx)⟩))
+      (vecsOK_inst inst hi _ 3 (fun t ht => ⟨by simp [ht], fun x hx => List.mem_of_mem_drop (List.mem_of_mem_take hx)⟩) (fun h => by cases h))
     exact inv_writeVec _ h2 .f32 4 (inst.map (fun t => (t.drop 6).take 4)) (Or.inl rfl)
-      (vecsOK_inst inst hi _ 4 (fun t ht => ⟨by simp [ht], fun x hx => List.mem_of_mem_drop (List.mem_of_mem_take hx)⟩))
+      (vecsOK_inst inst hi _ 4 (fun t ht => ⟨by simp [ht], fun x hx => List.mem_of_mem_drop (List.mem_of_mem_take hx)⟩)
+        (fun _ t x hx => List.mem_of_mem_take hx))
 
 theorem lowEq_addModelMaterial (s : Scene) (w : W) (md : Model) (r : W × Option Nat)
     (h : addModelMaterial s w md = .ok r) : LowEq r.1 w := by
@@ -216,6 +220,18 @@ theorem lowEq_addModelMaterial (s : Scene) (w : W) (md : Model) (r : W × Option
       · rename_i r' h'
         injection h with h; subst h
         exact lowEq_addMaterial _ _ _ _ h'
+
+theorem gate_ok (s : Scene) (w : W) (md : Model) (m : PMesh) (r : W × Option Nat) (h : addModelGate s w md m = .ok r) :
+    dupFree (m.written.map (fun a => gltfAttrName a.name)) = true ∧ addModelMaterial s w md = .ok r := by
+  unfold addModelGate at h
+  split at h
+  · rename_i hd; exact ⟨hd, h⟩
+  · cases h
+
+theorem skipped_false {m : PMesh} (h : ¬ meshSkipped m = true) : m.primitiveCount ≠ 0 ∧ m.written ≠ [] := by
+  unfold meshSkipped at h
+  simp only [Bool.or_eq_true, beq_iff_eq, List.isEmpty_iff, not_or] at h
+  exact h
 
 theorem inv_addModel (s : Scene) (w w' : W) (md : Model) (hs : SceneOK s) (hmd : md ∈ s.models) (hw : Inv w)
     (h : addModel s w md = .ok w') : Inv w' := by
@@ -231,6 +247,8 @@ theorem inv_addModel (s : Scene) (w w' : W) (md : Model) (hs : SceneOK s) (hmd :
       · split at h
         · cases h
         · rename_i r hr
+          have hgate := gate_ok s w md _ r hr
+          have hr := hgate.2
           have h1 : Inv r.1 := inv_congr hw (lowEq_addModelMaterial s w md r hr)
           have h2 := inv_addMesh r.1 md.name id m r.2 h1 hwf
           simp only at h
@@ -644,6 +662,8 @@ theorem addModel_refs (s : Scene) (w w' : W) (md : Model) (hw : MRefs 0 w) (h : 
       · split at h
         · cases h
         · rename_i r hr
+          have hgate := gate_ok s w md _ r hr
+          have hr := hgate.2
           obtain ⟨h1, hmat⟩ := addModelMaterial_refs s w md r hr hw
           obtain ⟨h2, hmi⟩ := addMesh_refs r.1 md.name id m r.2 h1 hmat
           simp only at h
@@ -752,6 +772,8 @@ theorem gltf_node_trs (s : Scene) (w w' : W) (md : Model) (h : addModel s w md =
       · split at h
         · cases h
         · rename_i r hr
+          have hgate := gate_ok s w md _ r hr
+          have hr := hgate.2
           have e1 : r.1.nodes = w.nodes := by
             unfold addModelMaterial at hr
             split at hr
